@@ -732,6 +732,28 @@ def check_property(prop, tier, only=None, keep=None, jobs=None):
                     log("    cbmc FAILURE %s @%s [%s] reproduced=%s %s" % (
                         v["label"], v["loc"], v["function"], v["reproduced"],
                         v["detail"][:400]))
+        # instances killed for lack of memory while many ran side by side (rc=137 /
+        # "out of memory") are run again, one at a time
+        retry = [o for o in outcomes if o.get("inconclusive") and not o["violations"] and
+                 re.search(r"rc=137|rc=-9|[Oo]ut of memory|cannot parse cbmc output", o["inconclusive"])]
+        for o in retry:
+            job = next(((i, ex, kc) for (i, ex, kc) in jobs_list
+                        if i.name == o["name"] and kc == o.get("confirm")), None)
+            if job is None:
+                continue
+            i, ex, kc = job
+            log("[%s] %s: retrying alone (was: %s)" % (prop, i.name, o["inconclusive"][:80]))
+            try:
+                o2 = check_instance(prop, i, tmp, tier, ex, kc, keep_dir)
+            except Exception as e:
+                continue
+            o2["kf_excluded"] = list(ex)
+            outcomes[outcomes.index(o)] = o2
+            log("[%s] %-34s %-12s %5.1fs  proven %d/%d (retry)" % (
+                prop, o2["name"], "ok" if o2["ok"] else "NOT-OK", o2["wall"], o2["proven"],
+                o2["obligations"] - len(o2["witnesses"])))
+            if o2["inconclusive"]:
+                log("    inconclusive: %s" % o2["inconclusive"][:600])
     finally:
         if not os.environ.get("VP_KEEP_TMP"):
             shutil.rmtree(tmp, ignore_errors=True)
